@@ -316,6 +316,12 @@ def judge(case, impl_lines, model_lines, rc, err, complete):
         r.problem = "oracle"
         kind = re.sub(r"\d+", "N", r.oracle[0].split()[0])
         r.sig = "h_filter:" + kind
+        # cause tag: the window is so large that float32 accumulation is no longer exact (n * max|sample| >= 2^24)
+        m = re.search(r" n=(\d+) type=(\d+)", r.oracle[0])
+        if m and kind == "pixel-not-the-mean":
+            maxabs = {0: 255, 1: 65535, 2: 128, 3: 32768, 5: 1023, 6: 4095, 7: 16383}.get(int(m.group(2)), 0)
+            if int(m.group(1)) * maxabs >= 1 << 24:
+                r.sig += ":window-beyond-exact-float-range"
         r.what = r.oracle[0]
     elif not complete:
         blocked = any(l == "BLOCKED" for l in impl_lines)
